@@ -127,7 +127,7 @@ def run_unit(A, unit, rep, tier):
         rep.context(g.label, True)
         n_short = 0
         for n in live(g):
-            if n.kind != "branch" or len(n.stack) != 1:
+            if n.kind != "branch" or not own(n):
                 continue
             c = n["cond"]
             parts = list(c.args[1:]) if (c.kind == "boolop" and c.args[0] == "and") else [c]
